@@ -551,10 +551,13 @@ impl<I, D: Data<Elem = A>, A: Float> AffFuncBase<I, D> {
             .filter(|r| r.iter().any(|&x| x != A::zero()))
             .collect_vec();
 
-        AffFuncBase::<I, OwnedRepr<A>>::from_mats(
-            stack(Axis(1), rows.as_slice()).unwrap(),
-            self.bias.to_owned(),
-        )
+        let mat = if rows.is_empty() {
+            Array2::zeros((self.outdim(), 0))
+        } else {
+            stack(Axis(1), rows.as_slice()).unwrap()
+        };
+
+        AffFuncBase::<I, OwnedRepr<A>>::from_mats(mat, self.bias.to_owned())
     }
 }
 
